@@ -471,6 +471,7 @@ pub fn c02_case(data: &[u8]) -> c02::Case {
         _ => BufSpec::HdrPlus(d.irange(-4, 40)),
     });
     c02::Case {
+        pre: if d.pick(3) == 0 { c09_prefix(&mut d) } else { vec![] },
         reuse: reuse_cfg(&mut d),
         prime: d.bool() || lab_ == Lab::ReUse,
         pdu: Pdu { len, seed: d.u32() | 4 },
